@@ -19,6 +19,9 @@ use crate::instruction::InstructionOps;
 use failure::{bail, Error};
 use maplit::btreeset;
 
+/// How long line of macro body may become after substitution of arguments
+const MAX_MACRO_LINE: usize = 64 * 1024;
+
 /// How deep macro calls may be nested
 const MAX_MACRO_DEPTH: usize = 64;
 
@@ -199,6 +202,14 @@ fn macro_expand(
                 let string_rep = ops.iter().map(|x| x.to_string());
                 for (num, replacer) in string_rep.enumerate() {
                     raw_line = raw_line.replace(&format!("@{}", num), replacer.as_str());
+                    if raw_line.len() > MAX_MACRO_LINE {
+                        bail!(
+                            "line of macro {} grows over {} bytes after substitution, {}",
+                            macro_name,
+                            MAX_MACRO_LINE,
+                            line
+                        );
+                    }
                 }
                 processed.push((cp.clone(), raw_line));
             }
